@@ -60,6 +60,76 @@ def args_from_replay(text):
             "--seed", h.get("seed", "1"), "--iters", h.get("iters", "30")]
 
 
+def sched_phase(V, prop, tier, seed, cfg, repdir):
+    """ThreadSanitizer under harness-owned schedules: the baton scheduler of the schedule engine picks the interleaving (its own
+    synchronisation is hidden from TSan), so a race that needs a particular interleaving is both reached and seen."""
+    import shutil
+    tcfg = cfg[tier]
+    n = tcfg.get("sched_cases", 0)
+    info = {"programs": 0, "schedules_run": 0, "workers": V.NCPU, "flagged": 0}
+    if not n:
+        return info, [], []
+    binp = V.build("schedtsan")
+    work = os.path.join(V.BUILD_ROOT, "work", "C07-sched-%d" % os.getpid())
+    shutil.rmtree(work, ignore_errors=True)
+    os.makedirs(work)
+    base = (seed * 4099 + 77) % (2 ** 31)
+
+    def worker(w):
+        env = dict(os.environ, TSAN_OPTIONS="halt_on_error=1 exitcode=66 report_signal_unsafe=0 history_size=5")
+        env["RC_PARAMS"] = "seed=%d max_success=%d max_size=30" % (base + w * 7919, n)
+        env["VERIF_SCHED_EXHAUST"] = str(tcfg.get("sched_exhaust", 30))
+        env["VERIF_SCHED_MAXOPS"] = str(tcfg.get("sched_maxops", 2))
+        try:
+            p = subprocess.run([binp, "gen", "--property", prop, "--out", work, "--worker", str(w)], capture_output=True, text=True, env=env,
+                               timeout=tcfg.get("timeout", 3000))
+            return (w, p.returncode, p.stderr[-12000:])
+        except subprocess.TimeoutExpired:
+            return (w, -9, "timeout")
+
+    with cf.ThreadPoolExecutor(V.NCPU) as ex:
+        res = list(ex.map(worker, range(V.NCPU)))
+    violations, notes, samples = [], [], []
+    seen = set()
+    for (w, rc, err) in res:
+        st = V.parse_stats(os.path.join(work, "stats-w%d.txt" % w))
+        if st:
+            info["programs"] += st["generated"]
+            info["schedules_run"] += st["labels"].get("schedules_run", 0)
+            for sm in st["samples"][:1]:
+                if len(samples) < 2:
+                    samples.append(sm)
+        cpath = os.path.join(work, "crash-w%d.case" % w)
+        if rc not in (0, 1) and os.path.exists(cpath):
+            summ = race_summary(err)
+            # replay the dumped program under the dumped schedule
+            env = dict(os.environ, TSAN_OPTIONS="halt_on_error=1 exitcode=66 report_signal_unsafe=0 history_size=5")
+            hit = None
+            for _ in range(3):
+                p = subprocess.run([binp, "replay", "--property", prop, cpath], capture_output=True, text=True, env=env, timeout=600)
+                if "ThreadSanitizer: data race" in p.stderr:
+                    hit = race_summary(p.stderr)
+                    break
+            if hit:
+                info["flagged"] += 1
+                if hit in seen:
+                    continue
+                seen.add(hit)
+                name = "C07-%s-sched-seed%d-w%d.case" % (tier, seed, w)
+                path = os.path.join(repdir, name)
+                with open(path, "w") as fh:
+                    fh.write("# property C07 mode sched-tsan\n# " + hit + "\n" + open(cpath).read())
+                violations.append((path, "under a harness-chosen schedule: " + hit))
+            else:
+                notes.append("scheduled-TSan worker %d stopped (%s) but its dumped program does not reproduce a report - not counted" % (w, summ))
+        elif rc == -9:
+            notes.append("scheduled-TSan worker %d hit the wall-clock budget: inconclusive for its share" % w)
+        elif rc not in (0, 1):
+            notes.append("scheduled-TSan worker %d exited with %s: %s" % (w, rc, err[-200:].replace("\n", " ")))
+    shutil.rmtree(work, ignore_errors=True)
+    return info, violations, (notes, samples)
+
+
 def check(V, prop, tier, seed, cfg):
     t0 = time.time()
     binp = V.build("race")
@@ -145,19 +215,26 @@ def check(V, prop, tier, seed, cfg):
         else:
             violations.append((path, "%s: %s x %s: %s" % (kind, a, b, summ)))
 
+    sinfo, sviol, (snotes, ssamples) = sched_phase(V, prop, tier, seed, cfg, repdir)
+    violations += sviol
+    notes = snotes + notes
+    samples += ssamples
+    evaluations += sinfo["programs"]
+
     wall = time.time() - t0
     agg = {"evaluations": evaluations, "generated": evaluations, "nontrivial": len(nontrivial), "hashes": nontrivial, "labels": {}, "cases_with": {},
            "foreign": {}, "kinds": {}, "crashes": 0, "timeouts": timeouts}
     extra = {"method_pairs_per_container": matrix, "pair_matrix_complete": True, "per_container": per_kind,
              "flagged_pairs": ["%s: %s x %s" % k for k in sorted(flagged)][:60],
+             "scheduled_tsan": sinfo,
              "engine": "E4 race (clang -fsanitize=thread, hooks off), free-running threads", "mode": "pairwise matrix" + (" + random programs" if tcfg.get("programs") else "")}
     V.write_evidence(prop, tier, seed, cfg, agg, samples, [], violations, known_lines, notes[:10], 0, wall, None, extra=extra)
     for ln in known_lines:
         V.log(ln)
     for n in notes[:10]:
         V.log("NOTE: " + n)
-    V.log("[%s %s] %d runs (%d method pairs over 10 containers, complete matrix), %d overlapped with hits, %d flagged, %.1fs" % (
-        prop, tier, evaluations, sum(matrix.values()), len(nontrivial), len(flagged), wall))
+    V.log("[%s %s] %d runs (%d method pairs over 10 containers, complete matrix; %d scheduled programs / %d schedules under TSan), %d overlapped with hits, %d flagged, %.1fs" % (
+        prop, tier, evaluations, sum(matrix.values()), sinfo["programs"], sinfo["schedules_run"], len(nontrivial), len(flagged) + sinfo["flagged"], wall))
     if violations:
         for path, desc in violations[:8]:
             V.log("VIOLATION property=%s replay=%s" % (prop, path))
@@ -184,6 +261,16 @@ def match_known_pair(V, kind, a, b, summ):
 
 
 def replay(V, prop, path, cfg):
+    if "mode sched-tsan" in open(path).read():
+        binp = V.build("schedtsan")
+        env = dict(os.environ, TSAN_OPTIONS="halt_on_error=1 exitcode=66 report_signal_unsafe=0 history_size=5")
+        p = subprocess.run([binp, "replay", "--property", prop, path], capture_output=True, text=True, env=env, timeout=600)
+        if "ThreadSanitizer: data race" in p.stderr:
+            V.log(race_summary(p.stderr))
+            V.log(p.stderr[:3000])
+            return 1
+        V.log("no report")
+        return 0
     binp = V.build("race")
     args = args_from_replay(open(path).read())
     hit = False
